@@ -303,14 +303,28 @@ def _chain_case(args):
                 case = {"kind": "chain", "masks": h2, "stored": stored_var,
                         "via_child": via_child, "seed": seed}
                 try:
-                    sel = _export(src, m, dst, stored,
-                                  via_child and level == 1)
+                    if via_child == 2:
+                        # through a hierarchy child at every level; the
+                        # parent hides its first event, so that child and
+                        # parent indices differ
+                        cm = np.ones(n, bool)
+                        if n >= 2:
+                            cm[0] = False
+                        if not m[:int(cm.sum())].any():
+                            continue
+                        sel = _export(src, m, dst, stored, True,
+                                      child_mask=cm)
+                    else:
+                        sel = _export(src, m, dst, stored,
+                                      via_child and level == 1)
                 except BaseException as e:
                     out.append(violation(
                         "dclab.rtdc_dataset.export:Export.hdf5", "exception",
                         case, f"export level {level}: "
                         f"{type(e).__name__}: {e}",
                         dict(tags, exc=type(e).__name__, level=level)))
+                    if dst.exists():
+                        dst.unlink()
                     continue
                 nfiles += 1
                 cmap2 = np.asarray(cmap)[sel]
@@ -556,13 +570,160 @@ def _special_case(args):
     return 1, out
 
 
+def _child_of_referrer_case(args):
+    """A file that refers to the origin through an unmapped / a mapped
+    basin is filtered (one parent mask per case), a hierarchy child is made
+    and exported with basins - filtered with every non-empty child mask,
+    and once unfiltered: the export's basin features are the origin's at
+    the composed indices."""
+    bits, mapped, seed, scratch = args
+    import dclab
+    from dclab.rtdc_dataset.writer import RTDCWriter
+    gen.register_user_features()
+    d = scratch / f"c07_cor_{bits}_{int(mapped)}_{os.getpid()}"
+    if d.exists():
+        shutil.rmtree(d)
+    d.mkdir()
+    out = []
+    cnt = 0
+    ev = gen.make_events(N0, seed=seed)
+    origin = d / "origin.rtdc"
+    gen.write_rtdc(origin, ev)
+    rmap = np.array([4, 0, 3, 3, 1, 2]) if mapped else np.arange(N0)
+    ref = d / "ref.rtdc"
+    with RTDCWriter(ref, mode="reset") as hw:
+        hw.store_metadata(gen.complete_meta(len(rmap)))
+        hw.store_feature("index_online", np.arange(len(rmap)) + 1)
+        kw = {"basin_map": rmap.astype(np.uint64)} if mapped else {}
+        hw.store_basin("b", "file", "hdf5", [str(origin)], **kw)
+    n = len(rmap)
+    pm = np.array([(bits >> i) & 1 for i in range(n)], bool)
+    tags = {"which": "child-of-referrer", "mapped": mapped}
+    try:
+        for cm in list(nonempty_masks(int(pm.sum()))) + [None]:
+            cnt += 1
+            dst = d / "exp.rtdc"
+            case = {"kind": "child-of-referrer", "bits": bits,
+                    "mapped": mapped, "seed": seed,
+                    "child_mask": None if cm is None
+                    else cm.astype(int).tolist()}
+            try:
+                with dclab.new_dataset(ref) as ds:
+                    ds.filter.manual[:] = pm
+                    ds.apply_filter()
+                    ch = dclab.new_dataset(ds)
+                    if cm is not None:
+                        ch.filter.manual[:] = cm
+                        ch.apply_filter()
+                    ch.export.hdf5(dst, features=["index_online"],
+                                   filtered=cm is not None, basins=True)
+            except BaseException as e:
+                out.append(violation(
+                    "dclab.rtdc_dataset.export:Export.hdf5", "exception",
+                    case, f"{type(e).__name__}: {e}",
+                    dict(tags, exc=type(e).__name__)))
+                if dst.exists():
+                    dst.unlink()
+                continue
+            sel = np.flatnonzero(pm)
+            if cm is not None:
+                sel = sel[cm]
+            out.extend(check_referrer(dst, ev, rmap[sel], case,
+                                      dict(tags, filtered=cm is not None),
+                                      full=False))
+            dst.unlink()
+    finally:
+        shutil.rmtree(d, ignore_errors=True)
+    return cnt, out
+
+
+def _long_chain_case(args):
+    """A chain of filtered exports whose sizes step down across the limits
+    of the unsigned integer types: 70001 -> 35000 -> 350 -> 175 -> 35
+    events (origin indices above 65535 and above 255 survive into the
+    small files).  In every generation the features that only the origin
+    stores equal the origin's at the composed indices, for a whole-array
+    read, slices at both ends and single indices."""
+    scratch, via_child = args
+    import dclab
+    d = scratch / f"c07_long_{int(via_child)}_{os.getpid()}"
+    if d.exists():
+        shutil.rmtree(d)
+    d.mkdir()
+    out = []
+    cnt = 0
+    n0 = 70001
+    k = np.arange(n0)
+    ev = {"deform": 0.01 + (k % 997) * 1e-4,
+          "area_um": 30.0 + (k % 4099) * 0.125,
+          "bright_avg": 100.0 + (k % 251) * 0.5 + k * 1e-3,
+          "frame": k * 3 + 7}
+    case = {"kind": "long-chain", "via_child": via_child}
+    try:
+        src = d / "g0.rtdc"
+        gen.write_rtdc(src, ev, meta=gen.complete_meta(n0, fl=False))
+        idx = np.arange(n0)
+        cur = src
+        for g, (start, step) in enumerate([(1, 2), (0, 100), (1, 2),
+                                           (4, 5)], start=1):
+            nxt = d / f"g{g}.rtdc"
+            with dclab.new_dataset(cur) as ds:
+                m = np.zeros(len(ds), bool)
+                m[start::step] = True
+                # the events nearest to the end of the origin stay in
+                m[-1] = True
+                ds.filter.manual[:] = m
+                ds.apply_filter()
+                src_ds = dclab.new_dataset(ds) if via_child else ds
+                src_ds.export.hdf5(nxt, features=["frame"], filtered=True,
+                                   basins=True)
+            idx = idx[m]
+            cur = nxt
+            with dclab.new_dataset(nxt) as de:
+                for f in ("deform", "area_um", "bright_avg"):
+                    cnt += 1
+                    exp = ev[f][idx]
+                    try:
+                        ok = f in de and len(de[f]) == len(idx) \
+                            and gen.arrays_equal(de[f][:], exp) \
+                            and gen.arrays_equal(de[f][:7], exp[:7]) \
+                            and gen.arrays_equal(de[f][len(idx) - 7:],
+                                                 exp[-7:]) \
+                            and all(de[f][j] == exp[j]
+                                    for j in (0, len(idx) // 2,
+                                              len(idx) - 1))
+                        detail = ""
+                    except Exception as e:
+                        ok = False
+                        detail = f" ({type(e).__name__}: {e})"
+                    if not ok:
+                        out.append(violation(
+                            FB + ":BasinProxyFeature.__getitem__",
+                            "wrong-data", case,
+                            f"generation {g} ({len(idx)} events, origin "
+                            f"indices up to {int(idx.max())}): {f} differs "
+                            f"from the origin at the composed indices"
+                            + detail,
+                            {"feat": f, "generation": g,
+                             "scope": "long-chain"}))
+                        break
+    except Exception as e:
+        out.append(violation(FB + ":BasinProxyFeature.__getitem__",
+                             "exception", case, f"{type(e).__name__}: {e}",
+                             {"exc": type(e).__name__,
+                              "scope": "long-chain"}))
+    finally:
+        shutil.rmtree(d, ignore_errors=True)
+    return cnt, out
+
+
 def run(ctx):
     scratch = ctx.scratch
     depth = 3
     items = []
     for bits in range(1, 2 ** N0):
         for stored_var, via_child in (("none", False), ("mixed", False),
-                                      ("scalar", True)):
+                                      ("scalar", True), ("none", 2)):
             # quick: depth 3 without stored features, depth 2 otherwise
             dd = depth if (ctx.thorough or stored_var == "none") else 2
             items.append((bits, dd, stored_var, via_child, ctx.seed,
@@ -600,6 +761,15 @@ def run(ctx):
     from .. import big
     viols = list(viols) + big.violations("C07", ctx.scratch)
     cov["big_input_events"] = big.N
+    lres = par.pmap(_long_chain_case, [(scratch, False), (scratch, True)])
+    lres += par.pmap(_child_of_referrer_case, [
+        (bits, mp, ctx.seed, scratch)
+        for mp in (False, True)
+        for bits in range(1, 2 ** (6 if mp else N0))
+        if ctx.thorough or bin(bits).count("1") in (1, 3, 4)])
+    cov["long_chain_reads"] = sum(c for c, _ in lres)
+    for _, vs in lres:
+        viols.extend(vs)
     return {"level": LEVEL, "coverage": cov, "violations": viols,
             "assumptions": ["origin of 5 events (23 for the chunk-crossing "
                             "map); referrer and origin in one directory"]}
@@ -609,6 +779,12 @@ def replay(case, ctx):
     if case.get("kind") == "big":
         from .. import big
         return big.violations("C07", ctx.scratch)
+    if case["kind"] == "child-of-referrer":
+        return [v for v in _child_of_referrer_case(
+            (case["bits"], case["mapped"], case["seed"], ctx.scratch))[1]
+            if v["case"] == case]
+    if case["kind"] == "long-chain":
+        return _long_chain_case((ctx.scratch, case["via_child"]))[1]
     if case["kind"] == "map":
         _, vs = _map_case((case["btype"], case["seed"], ctx.scratch))
         return [v for v in vs if v["case"].get("map") == case["map"]] or vs
